@@ -6,7 +6,7 @@ cd "$(dirname "$0")/.."
 S=$(mktemp -d /var/tmp/vp-tie.XXXXXX)
 cp -r coq "$S/coq"
 VERIF_REPO="$1" VERIF_LOGIC_OUT="$S/coq/Gen/LogicGen.v" python3 tools/gen_logic.py
-for g in Reconcile Bisync BisyncApply BisyncSys ArchiveSave OneWaySys WireMagic Cas Archive Plan Protocol SafeJoin DeltaV; do
+for g in Reconcile Bisync BisyncApply BisyncSys ArchiveSave OneWaySys WireMagic HubDelete Cas Archive Plan Protocol SafeJoin DeltaV; do
   if (cd "$S/coq" && timeout 600 make Proofs/Tie$g.vo >"$S/$g.log" 2>&1); then echo "tie $g: checks"; else echo "tie $g: BROKEN: $(grep -A3 '^Error' "$S/$g.log" | tr '\n' ' ' | cut -c1-300)"; fi
 done
 rm -rf "$S"
